@@ -988,7 +988,15 @@ pub fn c06(tier: &str) -> Vec<Family> {
     ] {
         sc.push(with_prelude(scn(format!("history/{}", name), &healthy, vec![pe(0, 1, 1)]), pre));
     }
-    vec![Family::new("stall_reports", &["report_exact", "error_class", "api_panic"], sc).cap(cap)]
+    // Large healthy fans on the real multi-threaded executor (one worker makes hundreds of tasks
+    // runnable at once): no stall or loss report.
+    let big: Vec<Scenario> = [300usize, 700, 1000].iter().map(|n| scn(format!("healthy/fan_out/{}", n), &big_fan(*n, 0, false), vec![pe(0, 1, 1), pe(0, 1, 2)])).collect();
+    let busy: Vec<Scenario> = [700usize, 1000].iter().map(|n| scn(format!("healthy/fan_out_busy/{}", n), &big_fan(*n, 1, false), vec![pe(0, 1, 1), pe(0, 1, 2)])).collect();
+    vec![
+        Family::new("large_fans_mt2", &["report_exact", "error_class", "api_panic", "delivery_lost", "half_handler"], [big.clone(), busy].concat()).uncontrolled(2, 2).hang_violation(),
+        Family::new("large_fans_mt4", &["report_exact", "error_class", "api_panic", "delivery_lost", "half_handler"], big).uncontrolled(4, 2).hang_violation(),
+        Family::new("stall_reports", &["report_exact", "error_class", "api_panic"], sc).cap(cap),
+    ]
 }
 
 // ---------------------------------------------------------------------------
@@ -1084,6 +1092,15 @@ pub fn c07(tier: &str) -> Vec<Family> {
         }
     }
     fams.push(Family::new("mailbox_overflow", &["same_origin_order", "sched_missed"], sc3).cap(cap));
+    // A cancelled action between live actions of one origin must not split their group.
+    {
+        let a9 = NodeSpec::new("A", 4).script(1, vec![Op::ReadTime]);
+        let b9 = NodeSpec::new("B", 2).script(1, vec![Op::ReadTime]);
+        let mut sp9 = BenchSpec::new(vec![a9, b9]);
+        sp9.srcs = vec![vec![to(0)], vec![to(1)]];
+        let runs: Vec<Scenario> = cancelled_runs(&Arc::new(sp9)).into_iter().filter(|s| s.label.ends_with("/middle") || tier != "quick").collect();
+        fams.push(Family::new("cancelled_runs", &["same_origin_order", "sched_missed", "sched_wrong_time"], runs).cap(cap));
+    }
     // Absolute and relative deadlines for the same instant, at ordinary and at extreme start times.
     let alpha_e: Vec<Cmd> = vec![
         Sched { node: 0, kind: SKind::Once, when: When::Abs(2), tag: 1, val: 1, slot: 0 },
@@ -1536,6 +1553,32 @@ pub fn c10(tier: &str) -> Vec<Family> {
         out.push(Family::new("periodic_sources_multi", &["sched_missed", "sched_dup", "sched_wrong_time", "step_time", "sched_overdue", "handler_time", "cmd_time", "delivery_lost", "delivery_dup"], sc_m).cap(cap));
     }
     out.push(Family::new("far_future", &["sched_missed", "sched_dup", "sched_wrong_time", "step_time", "sched_overdue", "handler_time", "cmd_time"], far_future_scenarios(&spec)).cap(cap));
+    {
+        // Cancelled (periodic) actions inside runs of same-time actions: no occurrence after the cancellation.
+        let a9 = NodeSpec::new("A", 4).script(1, vec![Op::ReadTime]);
+        let b9 = NodeSpec::new("B", 2).script(1, vec![Op::ReadTime]);
+        let mut sp9 = BenchSpec::new(vec![a9, b9]);
+        sp9.srcs = vec![vec![to(0)], vec![to(1)]];
+        let runs: Vec<Scenario> = cancelled_runs(&Arc::new(sp9)).into_iter().enumerate().filter(|(i, _)| tier != "quick" || i % 2 == 0).map(|(_, s)| s).collect();
+        out.push(Family::new("cancelled_runs", &["cancel_ignored", "sched_missed", "sched_dup", "sched_wrong_time", "step_time", "cmd_time", "handler_time"], runs).cap(cap));
+        // Periodic events armed from init() with relative and absolute first deadlines (the time seen in init is the start time).
+        let mut sc_i = vec![];
+        for p in [1u64, 2] {
+            for w in [When::Rel(1), When::Rel(2), When::Abs(2)] {
+                for kd in [SKind::Periodic(p), SKind::KeyedPeriodic(p)] {
+                    let m = NodeSpec::new("M", 2).script(1, vec![Op::ReadTime]).init(vec![Op::ReadTime, sched_self(kd, w, 1, 0)]);
+                    let spi = Arc::new(BenchSpec::new(vec![m]));
+                    for tail in [vec![Step, Step, Step], vec![StepUntil(When::Abs(4))], vec![Step, StepUntil(When::Rel(3))]] {
+                        sc_i.push(scn(format!("from_init/{:?}/{:?}/{}", kd, w, tail.len()), &spi, tail));
+                    }
+                }
+            }
+        }
+        let tags_i: &'static [&'static str] = &["sched_missed", "sched_dup", "sched_wrong_time", "step_time", "sched_overdue", "handler_time", "time_read", "cmd_time", "sched_validation"];
+        out.push(Family::new("periodic_from_init", tags_i, sc_i.clone()).cap(cap));
+        out.push(Family::new("periodic_from_init@-1s", tags_i, sc_i.clone()).cap(cap).epoch(-1));
+        out.push(Family::new("periodic_from_init@2^33", tags_i, sc_i).cap(cap).epoch((1i64 << 33) - 1));
+    }
     // The same series with start times before the epoch and crossing it.
     if let Some(base) = out.first() {
         let thin: Vec<Scenario> = base.scenarios.iter().enumerate().filter(|(i, _)| tier != "quick" || i % 4 == 0).map(|(_, s)| s.clone()).collect();
@@ -1737,6 +1780,20 @@ pub fn c11(tier: &str) -> Vec<Family> {
             sc_oos.push(scn(format!("out_of_sync/at{}", k), &sp, cmds));
         }
     }
+    // A lag exactly equal to the tolerance is not an error.
+    for k in 1..=2usize {
+        let mut sp = (*c11_spec(0)).clone();
+        let mut answers = vec![None; k];
+        answers.push(Some(1_000_000));
+        sp.clock = ClockSpec { answers, schedules: vec![] };
+        sp.tolerance_ns = Some(1_000_000);
+        let sp = Arc::new(sp);
+        sc_oos.push(scn(
+            format!("lag_equal_tolerance/at{}", k),
+            &sp,
+            vec![Cmd::Sched { node: 0, kind: SKind::Periodic(1), when: When::Rel(1), tag: 1, val: 9, slot: 0 }, Cmd::Step, Cmd::Step, Cmd::StepUntil(When::Rel(2)), pe(0, 1, 1)],
+        ));
+    }
     fams.push(Family::new("out_of_sync", TAGS_ERRORS, sc_oos));
     // Timeouts (wall-clock: few scenarios).
     let tspec = c11_spec(200);
@@ -1773,6 +1830,10 @@ pub fn c11(tier: &str) -> Vec<Family> {
     fams.push(Family::new("timeouts_set_after_init_st", TAGS_ERRORS, sc_l).uncontrolled(1, 1));
     let sc_l2: Vec<Scenario> = c11_scenarios(tier, &late, true).into_iter().take(n_t).collect();
     fams.push(Family::new("timeouts_set_after_init_mt", TAGS_ERRORS, sc_l2).uncontrolled(2, 1));
+    // After a fatal error every further call returns (Terminated): a call that hangs is a violation.
+    for f in fams.iter_mut() {
+        f.hang_is_violation = true;
+    }
     fams
 }
 
